@@ -108,6 +108,7 @@ Lemma s_read_len n i : zlen (fst (s_read n i)) <= Z.max 0 n.
 Proof.
   unfold s_read. destruct (s_sticky i).
   - destruct (negb (s_good i)); [cbn; lia|]. destruct (n <=? 0) eqn:E; [cbn; lia|].
+    destruct (closed_now i); [cbn; lia|].
     set (avail := Z.max 0 (s_size i - s_pos i)). set (n' := if avail <? n then avail else n).
     pose proof (zip_take_len (Z.to_nat n') (s_before i) (s_after i)) as H.
     destruct (zip_take (Z.to_nat n') (s_before i) (s_after i)) as [got [b a]]. cbn [fst] in *.
@@ -255,14 +256,14 @@ Proof. unfold eval_as. pose proof (eval_no_oobw call e Hcall s l) as H. destruct
 Lemma scan_loop_no_oobw n : forall tmp i, scan_loop sp n tmp i <> Err EOOBWrite.
 Proof.
   induction n as [|n IH]; intros tmp i; cbn [scan_loop]; [discriminate|].
-  destruct (s_read 4 i) as [got s1]. destruct (_ =? sp_sig sp); [discriminate|]. destruct (s_eof s1); [discriminate|]. apply IH.
+  destruct (s_read 4 i) as [got s1]. destruct (_ =? sp_sig sp); [discriminate|]. destruct (scan_stop sp s1); [discriminate|]. apply IH.
 Qed.
 Lemma scan_loop_value n : forall tmp i r, scan_loop sp n tmp i = Ok r -> fst r = sp_sig sp.
 Proof.
   induction n as [|n IH]; intros tmp i r H; cbn [scan_loop] in H; [discriminate|].
   destruct (s_read 4 i) as [got s1]. destruct (merge_scalar 4 tmp got =? sp_sig sp) eqn:E.
   - inversion H; subst. cbn. apply Z.eqb_eq. exact E.
-  - destruct (s_eof s1); [discriminate|]. eapply IH; eauto.
+  - destruct (scan_stop sp s1); [discriminate|]. eapply IH; eauto.
 Qed.
 
 Lemma small_unsigned_range s g v : sc_ok s -> small_unsigned g = true -> s g = VInt v -> 0 <= v < 2 ^ 32.
